@@ -368,6 +368,11 @@ class Normalizer:
                     pass
             if fn in ("tuple", "list") and len(e.args) == 1 and not e.keywords:
                 return self.key(e.args[0])
+            if fn == "len" and len(e.args) == 1 and not e.keywords:
+                inner = self.key(e.args[0])
+                if inner.endswith(".keys()"):
+                    inner = inner[: -len(".keys()")]  # len(d.keys()) == len(d)
+                return f"len({inner})"
             if fn in ("frozenset", "set") and len(e.args) == 1 and isinstance(e.args[0], (ast.Set, ast.List, ast.Tuple)):
                 return "{" + ", ".join(sorted(self.key(x) for x in e.args[0].elts)) + "}"
             args = [self.key(a) for a in e.args]
